@@ -383,10 +383,27 @@ func ruleDrainChildren(c *eng.Ctx) {
 
 // R16.4
 func ruleDeclaredChildRead(c *eng.Ctx) {
-	const R = "R16.4-DECLARED-CHILD-READ"
-	c.Rule(R, "every child-element collection that the DOCX/ODT XML structs declare and that can carry text (its element type transitively has a character-data field) is read somewhere in the package: a collection that is decoded and never read is content silently dropped", 10, 0)
+	declaredChildRead(c, "R16.4-DECLARED-CHILD-READ", map[string][]string{"docx": {"documentXML"}, "odt": {"documentXML"}}, 10,
+		"every child-element collection that the DOCX/ODT XML structs declare and that can carry text (its element type transitively has a character-data field) is read somewhere in the package: a collection that is decoded and never read is content silently dropped")
+}
+
+// R17.7 [C17]
+func ruleDeclaredChildReadXlsx(c *eng.Ctx) {
+	declaredChildRead(c, "R17.7-DECLARED-CHILD-READ", map[string][]string{"xlsx": {"worksheetXML", "sharedStringsXML"}}, 3,
+		"every child-element collection that the XLSX worksheet and shared-string structs declare and that can carry text is read somewhere in the package")
+}
+
+// R18.8 [C18]
+func ruleDeclaredChildReadPptx(c *eng.Ctx) {
+	declaredChildRead(c, "R18.8-DECLARED-CHILD-READ", map[string][]string{"pptx": {"slideXML", "notesSlideXML"}}, 6,
+		"every child-element collection that the PPTX slide structs declare and that can carry text is read somewhere in the package: a collection that is decoded and never read is text that appears on no page")
+}
+
+func declaredChildRead(c *eng.Ctx, R string, roots map[string][]string, floor int, doc string) {
+	c.Rule(R, doc, floor, 0)
 	for _, pkg := range c.P.Pkgs {
-		if pkg.Name != "docx" && pkg.Name != "odt" {
+		rootNames, ok := roots[pkg.Name]
+		if !ok || !strings.HasSuffix(pkg.PkgPath, "/"+pkg.Name) {
 			continue
 		}
 		used := map[types.Object]bool{}
@@ -407,6 +424,10 @@ func ruleDeclaredChildRead(c *eng.Ctx) {
 			case *types.Struct:
 				for i := 0; i < u.NumFields(); i++ {
 					if strings.Contains(u.Tag(i), ",chardata") {
+						return true
+					}
+					// an element decoded straight into a string field (<t>text</t> as `T string xml:"t"`)
+					if bt, ok := u.Field(i).Type().Underlying().(*types.Basic); ok && bt.Info()&types.IsString != 0 && xmlTagName(u.Tag(i)) != "" {
 						return true
 					}
 					if !strings.Contains(u.Tag(i), ",attr") && carriesText(u.Field(i).Type(), seen) {
@@ -438,12 +459,19 @@ func ruleDeclaredChildRead(c *eng.Ctx) {
 				}
 			}
 		}
-		root := scope.Lookup("documentXML")
-		if root == nil {
-			c.Undec(R, pkg.Name+".documentXML", token.NoPos, "body root struct not found")
+		missingRoot := false
+		for _, rn := range rootNames {
+			root := scope.Lookup(rn)
+			if root == nil {
+				c.Undec(R, pkg.Name+"."+rn, token.NoPos, "root struct not found")
+				missingRoot = true
+				continue
+			}
+			reach(root.Type())
+		}
+		if missingRoot {
 			continue
 		}
-		reach(root.Type())
 		names := scope.Names()
 		sort.Strings(names)
 		for _, n := range names {
